@@ -2,10 +2,10 @@ package main
 
 import (
 	"fmt"
-	"os"
 	"go/ast"
 	"go/token"
 	"go/types"
+	"os"
 	"sort"
 	"strings"
 
@@ -387,8 +387,8 @@ func hasCommandSwitch(p *Program, fn *ssa.Function) bool {
 
 type rspDesc struct {
 	cmd, dst, rspTo, success, err string
-	node                           ast.Node
-	gen                            int
+	node                          ast.Node
+	gen                           int
 }
 
 // ctrlCtor finds the package's control-response constructor and maps its
@@ -1024,7 +1024,9 @@ func c18Dispatch(c *Ctx, ag ctrlAgent) {
 						}
 					}
 					// not repeatable: leaves the pending condition
-					left := rowStoresAny(r, ag.pauseField, paused, ag.pausedC[1]) || len(r.Stores(func(s *Effect) bool { return strings.Contains(s.RecvS, "Pending") && len(s.Args) > 0 && s.Args[0] == "false" })) > 0
+					left := rowStoresAny(r, ag.pauseField, paused, ag.pausedC[1]) || len(r.Stores(func(s *Effect) bool {
+						return strings.Contains(s.RecvS, "Pending") && len(s.Args) > 0 && s.Args[0] == "false"
+					})) > 0
 					if !left {
 						fail("drain-ack", "after acknowledging a Drain the agent must leave the pending-drain condition (land in paused), otherwise the acknowledgement repeats", r)
 					}
